@@ -208,6 +208,7 @@ func (f *fAdapterTransport) Request(fctx FContext, payload []byte) (thrift.TTran
 
 	f.registry.Register(fctx, resultC)
 	defer f.registry.Unregister(fctx)
+	defer verifYield("request.beforeUnregister", verifOpID(fctx))
 
 	ctx, cancelFn := ToContext(fctx)
 	defer cancelFn()
